@@ -39,6 +39,11 @@ type apu struct {
 	nr10      uint8
 	freq1     int
 	sweepLive bool
+	// freqStale: the sweep unit may have written a new frequency back since NR13/NR14 were
+	// last written, so the reference no longer knows channel 1's frequency exactly
+	freqStale bool
+	// trigUnknown: the last trigger's overflow calculation depended on a stale frequency
+	trigUnknown bool
 }
 
 func newAPU() *apu {
@@ -54,6 +59,9 @@ func (a *apu) nextStepSkipsLength() bool { return a.step%2 == 1 }
 
 // tick advances one machine cycle.
 func (a *apu) tick() {
+	if a.sweepLive && a.ch[0].on {
+		a.freqStale = true
+	}
 	a.toStep--
 	if a.toStep > 0 {
 		return
@@ -80,7 +88,7 @@ func (a *apu) write(addr uint16, v uint8) {
 			for i := range a.ch {
 				a.ch[i].le, a.ch[i].dac, a.ch[i].on, a.ch[i].inexact = false, false, false, false
 			}
-			a.nr10, a.freq1, a.sweepLive = 0, 0, false
+			a.nr10, a.freq1, a.sweepLive, a.freqStale = 0, 0, false, false
 		}
 		if on && !a.power {
 			a.step = 0
@@ -137,8 +145,12 @@ func (a *apu) write(addr uint16, v uint8) {
 			if i == 0 {
 				per, shift, neg := int(a.nr10>>4)&7, int(a.nr10&7), a.nr10&8 != 0
 				a.sweepLive = per != 0 || shift != 0
-				if shift > 0 && !neg && a.freq1+(a.freq1>>uint(shift)) > 2047 {
-					c.on = false
+				if shift > 0 && !neg {
+					if a.freqStale {
+						a.trigUnknown = c.on
+					} else if a.freq1+(a.freq1>>uint(shift)) > 2047 {
+						c.on = false
+					}
 				}
 			}
 		}
@@ -162,6 +174,7 @@ func (a *apu) write(addr uint16, v uint8) {
 		dacWrite(3, v&0xf8 != 0)
 	case 0xff13:
 		a.freq1 = a.freq1&0x700 | int(v)
+		a.freqStale = false
 	case 0xff14:
 		a.freq1 = a.freq1&0xff | int(v&7)<<8
 		nrx4(0, v)
@@ -222,6 +235,14 @@ func (w *world) compare(when string) bool {
 	for i := 0; i < 4; i++ {
 		g, x := got&(1<<uint(i)) != 0, want&(1<<uint(i)) != 0
 		c := &w.ref.ch[i]
+		if i == 0 && w.ref.trigUnknown {
+			// triggered with a non-negating sweep shift while the frequency had been
+			// rewritten by the sweep unit: either outcome of the overflow test is accepted
+			w.ref.trigUnknown = false
+			w.c.Count("ch1_trigger_overflow_outcome_unknown", 1)
+			c.on = g
+			continue
+		}
 		if g == x {
 			continue
 		}
